@@ -518,6 +518,25 @@ func checkDiffsTo(c *Ctx, r *goan.Rel) {
 			}
 			return true
 		})
+		// no return hands one of the two lists back as it is: both sides are compared as sets (a repeated item
+		// would otherwise count twice in one direction and once in the other)
+		ast.Inspect(fd.Body, func(n ast.Node) bool {
+			ret, ok := n.(*ast.ReturnStmt)
+			if !ok {
+				return true
+			}
+			for i, e := range ret.Results {
+				if id, ok := ast.Unparen(e).(*ast.Ident); ok && (info.ObjectOf(id) == argObj) {
+					c.Bad(rule, fmt.Sprintf("diff.%s.DiffsTo › result %d is the argument list itself", recv, i), c.posOf(pk, ret.Pos()),
+						"a shortcut returns the argument list verbatim instead of the set of its items: repeated items are counted once per occurrence in this direction and once in all in the other")
+				}
+				if se, ok := ast.Unparen(e).(*ast.SelectorExpr); ok && identIs(info, se.X, recvObj) {
+					c.Bad(rule, fmt.Sprintf("diff.%s.DiffsTo › result %d is the receiver's list itself", recv, i), c.posOf(pk, ret.Pos()),
+						"a shortcut returns the receiver's list verbatim instead of the set of its items")
+				}
+			}
+			return true
+		})
 		// an early return that leaves the 'deleted' slot empty is only right when the receiver has nothing to lose:
 		// its condition must fail whenever the receiver-emptiness tests fail, whatever the other tests say
 		ast.Inspect(fd.Body, func(n ast.Node) bool {
